@@ -318,6 +318,24 @@ fn main() {
     }
   }
   space.insert("operand_kind_cases".into(), json!(n_operand_cases));
+  // tuples around the 16-element cap whose elements are bare identifiers except for one that is written
+  // with redundant parentheses (the printer drops them, which moves the tuple to the parser's
+  // identifier-list path), as expression, call argument and let initialiser
+  let mut n_tuple_cases = 0u64;
+  for n in [2usize, 3, 14, 15, 16] {
+    for special in [0usize, n / 2, n - 1] {
+      for form in ["(@)", "((@))", "{ @ }", "(@ + 0)", "1"] {
+        let elems: Vec<String> = (0..n).map(|i| if i == special { form.replace('@', &format!("a{i}")) } else { format!("a{i}") }).collect();
+        let t = format!("({})", elems.join(", "));
+        for e in [t.clone(), format!("f({t})"), format!("{{ let t = {t}; t }}")] {
+          cases.push((exprgen::wrap_in_module(&e), 100, format!("tuple at the cap: {e}")));
+          cases.push((exprgen::wrap_in_module(&e), 40, format!("tuple at the cap@w40: {e}")));
+          n_tuple_cases += 2;
+        }
+      }
+    }
+  }
+  space.insert("tuples_around_the_cap".into(), json!(n_tuple_cases));
   // literal classes, in expression position and as operands of each operator class
   let mut n_lit = 0;
   for lit in LITERALS {
